@@ -96,15 +96,17 @@ pub fn entries(tier_big: bool) -> BoxedStrategy<Vec<CEntry>> {
             10 => vec(centry(), 1..15),
             4 => vec(centry(), 14..19),   // crosses 15/16: two-byte list TLF
             1 => vec(centry(), 19..60),
+            1 => vec(centry(), 60..250),  // interior list lengths
             1 => vec(centry(), 250..262), // crosses 255/256: three-nibble list TLF
         ]
         .boxed()
     } else {
         prop_oneof![
             16 => Just(vec![]),
-            96 => vec(centry(), 1..8),
+            96 => vec(centry(), 1..14),
             24 => vec(centry(), 14..19),
             8 => vec(centry(), 19..41),
+            1 => vec(centry(), 41..250),    // interior list lengths
             1 => vec(centry(), 250..262),   // rare in the quick tier: messages beyond 4 KiB
         ]
         .boxed()
@@ -130,9 +132,28 @@ pub fn cmsg(tier_big: bool) -> impl Strategy<Value = CMsg> {
         })
 }
 
+/// A small message (close, open, or a list response with at most two entries) for files with many messages.
+pub fn cmsg_small() -> impl Strategy<Value = CMsg> {
+    let body = prop_oneof![
+        3 => (extra(), opt(0.3, octet(8))).prop_map(|(list_extra, sig)| CBody::Close { list_extra, sig }),
+        1 => (extra(), octet(8), octet(8), opt(0.5, ctime())).prop_map(|(list_extra, req_file_id, server_id, ref_time)| CBody::Open { list_extra, codepage: None, client_id: None, req_file_id, server_id, ref_time, sml_version: None }),
+        2 => (extra(), octet(8), vec(centry(), 0..3), opt(0.3, ctime())).prop_map(|(list_extra, server_id, entries, act_gateway_time)| CBody::GetList {
+            list_extra, client_id: None, server_id, list_name: None, act_sensor_time: None, vals_extra: 0, entries, list_sig: None, act_gateway_time,
+        }),
+    ];
+    (octet(6), cuint(1, 1), body, any::<bool>()).prop_map(|(transaction_id, group_no, body, crc_short)| CMsg {
+        list_extra: 0, transaction_id, group_no, abort_on_error: CUint::w(0, 1), body_list_extra: 0, tag_width: 2, tag_extra: 0, body, crc_short, crc_extra: 0,
+    })
+}
+
 pub fn cfile(tier_big: bool) -> impl Strategy<Value = CFile> {
     let n = if tier_big { 0..9usize } else { 0..5usize };
-    vec(cmsg(tier_big), n).prop_map(|msgs| CFile { msgs })
+    prop_oneof![
+        60 => vec(cmsg(tier_big), n).prop_map(|msgs| CFile { msgs }),
+        // many messages in one file (state carried from message to message)
+        1 => vec(cmsg_small(), 5..40).prop_map(|msgs| CFile { msgs }),
+        1 => vec(cmsg_small(), 250..300).prop_map(|msgs| CFile { msgs }),
+    ]
 }
 
 /// A typical meter transmission: open, get-list, close.
